@@ -304,7 +304,10 @@ class Check:
             if key not in self.known_hit:
                 self.known_hit[key] = what
             return
-        if len(self.fails) < 50:
+        # keep real-code failures and correspondence failures apart so that neither crowds out the other
+        n_real = sum(1 for f in self.fails if not f[0].startswith("tie:"))
+        n_tie = len(self.fails) - n_real
+        if (key.startswith("tie:") and n_tie < 25) or (not key.startswith("tie:") and n_real < 50):
             self.fails.append((key, what, replay))
 
     # ------------------------------------------------------------- finish
